@@ -193,7 +193,69 @@ def bounded(tier, seed, procs):
         if not ok:
             b2.fail(Failure("substitute-kwargs", f"what=history d={d0!r} dict_after={d!r}", dict(kind="subst-hist", d=repr(d0)), expected="caller's dict unchanged; later calls see only the dict",
                             actual=f"dict={d!r} second={outcome.describe(r2)[:80]} fresh={outcome.describe(fresh)[:80]}", functions=["substitute"]))
-    return [b, b2]
+    return [b, b2, b_under_wrappers(tier)]
+
+
+def ref_falsy(n):
+    """The documented truth value 'is zero' of a node, written independently: a literal zero; a product with a literal-zero factor
+    (recursively); a quotient / floor division / remainder whose numerator is zero; a one-operand sum of a zero."""
+    import pymbolic.primitives as p
+    if not isinstance(n, p.Expression):
+        return (not isinstance(n, (tuple, list, str))) and n == 0
+    if isinstance(n, p.Product):
+        return any(ref_falsy(c) for c in n.children)
+    if isinstance(n, (p.Quotient, p.FloorDiv, p.Remainder)):
+        return ref_falsy(n.numerator)
+    if isinstance(n, p.Sum) and len(n.children) == 1:
+        return ref_falsy(n.children[0])
+    return False
+
+
+def b_under_wrappers(tier):
+    """Substitution below common-subexpression wrappers, with replacements that are zero / falsy."""
+    import pymbolic.primitives as p
+    from pymbolic.mapper.evaluator import EvaluationMapper
+    from pymbolic.mapper.substitutor import SubstitutionMapper, make_subst_func, substitute
+    b = BoundedRun("substitute-under-wrappers", rule="wrappers around powers, products, quotients, sums, calls and comparisons (alone, nested in a sum, wrapper in wrapper) x replacements "
+                   "{0, 0.0, False, 1, y} for x, for y and for both x environments in which the exponent / denominator / other factor is 0, 2, -1, 1/2: "
+                   "evaluate(substitute(e, s), env) has the outcome of evaluating e in the re-bound environment (value or error class); plain mapper == substitute()",
+                   bound="18 shapes x 11 maps x 12 environments", functions=["SubstitutionMapper.map_common_subexpression", "IdentityMapper.map_common_subexpression", "is_zero"])
+    x, y, n = trees.X, trees.Y, p.Variable("n")
+    C = p.CommonSubexpression
+    inner = [p.Power(x, n), p.Power(x, y), p.Power(n, x), p.Product((x, y)), p.Product((y, x, n)), p.Quotient(x, y), p.Quotient(y, x), p.FloorDiv(x, n), p.Remainder(x, n),
+             p.Sum((x, y)), p.Sum((x,)), p.Call(trees.F, (x,)), p.Comparison(x, "<", y), p.If(p.Comparison(x, "==", 0), y, n)]
+    shapes = [C(i) for i in inner] + [p.Sum((C(inner[0]), 1)), p.Product((2, C(inner[3]))), C(C(inner[0]), "outer"), C(inner[5], "q")]
+    sigmas = [{"x": 0}, {x: 0}, {"x": 0.0}, {"x": False}, {"x": 1}, {"x": y}, {"y": 0}, {"x": 0, "y": 0}, {"n": 0}, {"x": 0, "n": 0}, {"x": p.Sum((y, -1))}]
+    envs = [dict(x=vx, y=vy, n=vn, f=lambda t: t + 5) for vx in (3,) for vy, vn in itertools.product((0, 2, -1, Fraction(1, 2)), (0, 2, -1))]
+    for e in shapes:
+        for sg in sigmas:
+            rp = outcome.run(lambda: SubstitutionMapper(make_subst_func(sg))(e))
+            rs = outcome.run(lambda: substitute(e, sg))
+            b.case((repr(e), repr(sg)), sample=dict(expr=repr(e), sigma=repr(sg)))
+            why, cause = None, ""
+            if rp[0] != "val" or rs[0] != "val" or not (rs[1] == rp[1]):
+                why = f"plain {outcome.describe(rp)[:80]} / substitute {outcome.describe(rs)[:80]}"
+            else:
+                # the region of known finding C04-identity-cse-zero: a wrapper whose substituted child is zero by the reference truth value
+                def wrapped_children(t):
+                    if isinstance(t, p.CommonSubexpression):
+                        yield t.child
+                    if isinstance(t, p.Expression):
+                        for c in api.children(t):
+                            yield from wrapped_children(c)
+                subst_children = [SubstitutionMapper(make_subst_func(sg))(c) for c in wrapped_children(e)]
+                if any(ref_falsy(c) for c in subst_children):
+                    cause = "cause=wrapper-of-zero-child "
+                for env in envs:
+                    real = outcome.run(lambda: EvaluationMapper(env)(rp[1]))
+                    spec = outcome.run(lambda: den_sigma(e, sg, env))
+                    if not outcome.equivalent(real, spec, None, typed=False):
+                        why = f"value differs at y={env['y']} n={env['n']}: {outcome.describe(real)[:60]} vs spec {outcome.describe(spec)[:60]}"
+                        break
+            if why:
+                b.fail(Failure("substitute-under-wrappers", f"{cause}expr={e!r} sigma={sg!r} why={why}", dict(kind="subst-wrap", expr=trees.src(e), sigma=repr(sg)),
+                               expected="evaluate(substitute(e, s)) == den_s(e)", actual=why, functions=["IdentityMapper.map_common_subexpression", "SubstitutionMapper"]))
+    return b
 
 
 def _shares(r, e, sg):
